@@ -114,6 +114,14 @@ func isNoop(o OptSpec, c Case, b *built) bool {
 		return allImgs(func(m imgModel) bool { return m.Labels[labelTimeKey] == "2015-01-01T00:00:00Z" })
 	}
 	switch o.Kind {
+	case "time":
+		oc, ol := o, o
+		oc.Kind, ol.Kind = "config-time", "layer-time"
+		return isNoop(oc, c, b) && isNoop(ol, c, b)
+	case "time-max":
+		oc, ol := o, o
+		oc.Kind, ol.Kind = "config-time-max", "layer-time-max"
+		return isNoop(oc, c, b) && isNoop(ol, c, b)
 	case "annotation":
 		all, plats, name := parseScope(o.Name)
 		if name == "" {
